@@ -13,7 +13,9 @@
 (***************************************************************************)
 EXTENDS Catalog, FlatOps, Json
 
-CONSTANTS TypeIds, LMults, FollowUps
+CONSTANTS TypeIds, LMults, FollowUps,
+          BigInit      \* TRUE: start from FlexVec<FlatVec<u8,u8>,u8> states whose last item is about L::MAX bytes long (the sealed
+                       \* extent of the last item is / is not representable in the offset type)
 
 VARIABLES ci, L, tree
 vars == <<ci, L, tree>>
@@ -22,17 +24,23 @@ T == Catalog[ci].t
 LMaxMult == CHOOSE m \in LMults : \A k \in LMults : k <= m
 LSet(t) == {MinSize(t) + j * Align(t) : j \in LMults} \cup {MinSize(t) + LMaxMult * Align(t) + 1}
 
+BigL == 264
+BigTrees == [n \in 1..5 |-> [items |-> << [reg |-> 0, v |-> [cap |-> 255, items |-> Rep(249 + n, <<7>>)]] >>]]
 Init ==
-  /\ ci \in {i \in DOMAIN Catalog : Catalog[i].id \in TypeIds}
-  /\ L \in LSet(Catalog[ci].t)
-  /\ LET tv == TV(Catalog[ci].t, L) IN \E vi \in 1..Len(tv) : tree = tv[vi]
+  IF BigInit
+    THEN /\ ci \in {i \in DOMAIN Catalog : Catalog[i].id = "X_vu8_u8"}
+         /\ L = BigL
+         /\ \E n \in DOMAIN BigTrees : tree = BigTrees[n]
+    ELSE /\ ci \in {i \in DOMAIN Catalog : Catalog[i].id \in TypeIds}
+         /\ L \in LSet(Catalog[ci].t)
+         /\ LET tv == TV(Catalog[ci].t, L) IN \E vi \in 1..Len(tv) : tree = tv[vi]
 
 StepRec(path, o, r) == [path |-> [i \in 1..Len(path) |-> path[i] - 1], op |-> o, ok |-> r.ok, ret |-> r.ret]
 
 OpCase(path, o, r, follow) ==
   LET t2 == IF follow.has THEN follow.r.tree ELSE r.tree
       last == IF follow.has THEN follow.r ELSE r
-  IN [k |-> "op", id |-> Catalog[ci].id, L |-> L,
+  IN [k |-> "op", id |-> Catalog[ci].id, L |-> L, portable |-> IsPortable(T),
       pre |-> Enc(tree, T, L), pretree |-> tree,
       steps |-> IF follow.has THEN <<StepRec(path, o, r), StepRec(follow.path, follow.o, follow.r)>> ELSE <<StepRec(path, o, r)>>,
       node |-> Get(tree, T, L, path, 0).t.k,
@@ -51,6 +59,8 @@ Step ==
         ops == OpsAt(nd.v, nd.t, nd.l, path = <<>>)
     IN \E oi \in 1..Len(ops) :
          LET o == ops[oi]  r == Apply(tree, T, L, path, o) IN
+         \* (with the long vectors of BigInit only the operations that move the boundary are explored)
+         /\ (BigInit => (path = <<>> /\ o.op \in {"push", "push_default", "pop"}) \/ (path = <<1>> /\ o.op \in {"push", "pop"}))
          /\ tree' = r.tree
          /\ PrintT(<<"CASE", ToJson(OpCase(path, o, r, NoFollow))>>)
          /\ (FollowUps /\ ~r.ok /\ IsContainerOp(nd.t, o)) =>
@@ -60,6 +70,9 @@ Step ==
 
 Next == Step
 Spec == Init /\ [][Next]_vars
+
+\* state constraint of the BigInit configuration: at most two items, the second one short
+BigBound == Len(tree.items) \in 1..2 /\ Len(tree.items[1].v.items) >= 249 /\ (Len(tree.items) = 2 => Len(tree.items[2].v.items) <= 1)
 
 \* ---- invariants of every reachable state --------------------------------------------------------
 InvRoundTrip == RoundTrip(tree, T, L)
